@@ -489,10 +489,14 @@ int hwloc_topology_diff_build(hwloc_topology_t topo1,
  * Applying diffs
  */
 
+/* *infoidxp is the index of the info pair to modify,
+ * or (unsigned)-1 for the first matching one, whose index is stored there.
+ */
 static int
 hwloc_apply_diff_one(hwloc_topology_t topology,
 		     hwloc_topology_diff_t diff,
-		     unsigned long flags)
+		     unsigned long flags,
+		     unsigned *infoidxp)
 {
 	int reverse = !!(flags & HWLOC_TOPOLOGY_DIFF_APPLY_REVERSE);
 
@@ -547,10 +551,13 @@ hwloc_apply_diff_one(hwloc_topology_t topology,
 			int found = 0;
 			for(i=0; i<infos->count; i++) {
 				struct hwloc_info_s *info = &infos->array[i];
+				if (*infoidxp != (unsigned) -1 && *infoidxp != i)
+					continue;
 				if (!strcmp(info->name, name)
 				    && !strcmp(info->value, oldvalue)) {
 					free(info->value);
 					info->value = strdup(newvalue);
+					*infoidxp = i;
 					found = 1;
 					break;
 				}
@@ -576,8 +583,9 @@ int hwloc_topology_diff_apply(hwloc_topology_t topology,
 			      hwloc_topology_diff_t diff,
 			      unsigned long flags)
 {
-	hwloc_topology_diff_t tmpdiff, tmpdiff2;
-	int err, nr;
+	hwloc_topology_diff_t tmpdiff;
+	unsigned *infoidx; /* which info pair each element modified, to unapply exactly that one */
+	int err, nr, i;
 
 	if (!(topology->state & HWLOC_TOPOLOGY_STATE_IS_LOADED)) {
 	  errno = EINVAL;
@@ -593,24 +601,41 @@ int hwloc_topology_diff_apply(hwloc_topology_t topology,
 		return -1;
 	}
 
+	nr = 0;
+	for(tmpdiff = diff; tmpdiff; tmpdiff = tmpdiff->generic.next)
+		nr++;
+	if (!nr)
+		return 0;
+	infoidx = malloc(nr * sizeof(*infoidx));
+	if (!infoidx) {
+		errno = ENOMEM;
+		return -1;
+	}
+
 	tmpdiff = diff;
 	nr = 0;
 	while (tmpdiff) {
+		infoidx[nr] = (unsigned) -1;
+		err = hwloc_apply_diff_one(topology, tmpdiff, flags, &infoidx[nr]);
 		nr++;
-		err = hwloc_apply_diff_one(topology, tmpdiff, flags);
 		if (err < 0)
 			goto cancel;
 		tmpdiff = tmpdiff->generic.next;
 	}
+	free(infoidx);
 	return 0;
 
 cancel:
-	tmpdiff2 = tmpdiff;
-	tmpdiff = diff;
-	while (tmpdiff != tmpdiff2) {
-		hwloc_apply_diff_one(topology, tmpdiff, flags ^ HWLOC_TOPOLOGY_DIFF_APPLY_REVERSE);
-		tmpdiff = tmpdiff->generic.next;
+	/* unapply the nr-1 first elements, the last one first
+	 * because several elements may have modified the same attribute.
+	 */
+	for(i=nr-2; i>=0; i--) {
+		int j;
+		for(tmpdiff = diff, j=0; j<i; j++)
+			tmpdiff = tmpdiff->generic.next;
+		hwloc_apply_diff_one(topology, tmpdiff, flags ^ HWLOC_TOPOLOGY_DIFF_APPLY_REVERSE, &infoidx[i]);
 	}
+	free(infoidx);
 	errno = EINVAL;
 	return -nr; /* return the index (starting at 1) of the first element that couldn't be applied */
 }
